@@ -52,6 +52,11 @@ func init() {
 
 func fits(b *big.Int) bool { return b.IsInt64() }
 
+func finiteAsDouble(b *big.Int) bool {
+	f, _ := new(big.Float).SetInt(b).Float64()
+	return !math.IsInf(f, 0)
+}
+
 func repsOf(b *big.Int) []string {
 	r := []string{"big", "num"}
 	if fits(b) {
@@ -222,8 +227,8 @@ func checkArith(c arithCase) string {
 			g = n.F
 		}
 		w, _ := wantFloat.Float64()
-		if math.IsInf(w, 0) || math.IsNaN(g) {
-			return "" // outside double range: not claimed
+		if math.IsInf(w, 0) || math.IsNaN(g) || !finiteAsDouble(a) || !finiteAsDouble(b) {
+			return "" // an operand or the quotient outside the double range: not claimed
 		}
 		if d := math.Abs(g - w); d > math.Abs(w)*1e-14 {
 			return fmt.Sprintf("non-integral quotient %s differs from %v", univ.Show(got), w)
@@ -408,7 +413,19 @@ func boundary(ks []int) []*big.Int {
 
 func genBig() *rapid.Generator[*big.Int] {
 	return rapid.Custom(func(t *rapid.T) *big.Int {
-		switch rapid.IntRange(0, 5).Draw(t, "kind") {
+		switch rapid.IntRange(0, 6).Draw(t, "kind") {
+		case 6: // around the double range: 2^1023, 2^1024, 10^308, 10^309
+			var x *big.Int
+			if rapid.Bool().Draw(t, "pow10") {
+				x = new(big.Int).Exp(big.NewInt(10), big.NewInt(int64(rapid.IntRange(306, 310).Draw(t, "e10"))), nil)
+			} else {
+				x = new(big.Int).Lsh(big.NewInt(1), uint(rapid.IntRange(1021, 1026).Draw(t, "e2")))
+			}
+			x.Add(x, big.NewInt(rapid.Int64Range(-3, 3).Draw(t, "d")))
+			if rapid.Bool().Draw(t, "neg") {
+				x.Neg(x)
+			}
+			return x
 		case 0: // ±2^k±d
 			k := rapid.IntRange(0, 130).Draw(t, "k")
 			d := rapid.Int64Range(-3, 3).Draw(t, "d")
